@@ -58,6 +58,40 @@ CHECKS = {
              "(no overflow); DL_SORT stable; ovniemu's order observed through the type-4 PRV records",
         technique="Lean 4 data-structure invariants + refinement of the player to an abstract merge + differential runs (C harness, ovnidump, ovniemu)",
         design="DESIGN.md §5 C03"),
+    "C04": dict(
+        text=("Theorems (Props/C04.lean, 17) over the reference emulator (Emu/Core.lean: transcription of ovni/event.c pre_thread_*, "
+              "thread.c, cpu.c with the exact channel semantics) against a specification automaton written from the property "
+              "text (Legal / specThread / SpecAccepts): the invariant WF of reachable states holds initially and is preserved "
+              "by every accepted OH* event (wf_init, wf_step); in a WF state preThread succeeds IFF the transition is Legal "
+              "and no physical CPU gets a second running thread (thread_accept_iff); a whole OH* history on any number of "
+              "threads (never executing a dead thread) is accepted IFF every step is legal, no physical CPU is ever "
+              "oversubscribed and all threads end dead (history_accept_iff; stepEv_history_accept_partial relates it to the "
+              "full step including record emission - the converse needs records to be total, OPEN); after every accepted "
+              "prefix the state channel holds the spec state and the TID channel the TID exactly while running, cooling or "
+              "warming, and those are the Paraver records emitted (reaches_spec, state_view, state_records). Tie: random "
+              "walks over an independent Python re-statement of the automaton with single illegal steps, a transition matrix, "
+              "directed oversubscription cases and every history up to length 3 (thorough 5) over two threads: real "
+              "ovniemu -l vs the Lean reference emulator (verdict, point of rejection, thread.prv types 2/4/6) and vs the "
+              "automaton's verdict and timeline."),
+        note=TB + "; executing a dead thread is outside the quantified space; task/mark hooks are universally quantified; a thread "
+             "marked out-of-CPU by the kernel model is outside WF",
+        technique="Lean 4 invariant + iff against an independent spec automaton by induction over histories + differential ovniemu runs",
+        design="DESIGN.md §5 C04"),
+    "C05": dict(
+        text=("Theorems (Props/C05.lean, 17) over the same model, for histories of OH* and OAs/OAr events in any interleaving: "
+              "thread-in-CPU-list membership and index invariants (cpu_membership_inv, index_inv); in every reachable state "
+              "every physical CPU has at most one running thread and a step that would create two is rejected "
+              "(no_phys_oversub, thread_/execute_on_busy_/affinity_set_/affinity_remote_oversub_rejected) while the virtual "
+              "CPU may be oversubscribed (vcpu_may_oversub, decide); accept-iff for local and remote affinity changes "
+              "(affinity_set_accept_iff, affinity_remote_accept_iff; the remote change to the thread's current CPU is "
+              "rejected by the code and documented: remote_same_cpu_rejected); after every accepted step the nrun channel is "
+              "the number of running threads bound to the CPU and tid/pid are those of the unique one, null otherwise, and "
+              "those are the cpu.prv records emitted (cpu_view, cpu_view_step, cpu_records). Tie: affinity-heavy histories "
+              "over several threads, CPUs and looms, witnesses and bounded-exhaustive words: real ovniemu -l vs the Lean "
+              "reference emulator and vs an independent oracle recomputing cpu.prv types 1,2,3 from thread.prv types 4,6."),
+        note=TB + "; findRemote / loomGetCpu are static lookups proved invariant under steps",
+        technique="Lean 4 invariant proofs over the CPU bookkeeping + differential ovniemu runs + recomputation oracle",
+        design="DESIGN.md §5 C05"),
     "C07": dict(
         text=("Theorems (Props/C07.lean, 12) over a transcription of body.c/task.c (one branch per C guard, in order) and of the "
               "nOS-V / Nanos6 update_task layer, against a life-cycle specification written independently: the model accepts a "
